@@ -2954,6 +2954,7 @@ pub fn run(args: &Args, rep: &mut Report) {
     // values twice may take the process down at any later point
     let prop = args.str("prop", "");
     for (label, ops) in todo {
+        mark_current(&case_lines(&ops));
         if !prop.is_empty() && (reported.contains(&format!("impl:{}", prop)) || reported.contains(&format!("impl:{}:conc", prop))) {
             rep.count("cases_not_run_after_the_property_was_found_broken");
             continue;
